@@ -31,6 +31,7 @@ COMPONENTS = {"real": ["subsequence/localconcurrences.py (LocalConcurrences, LCM
               "stub": ["client sessions and their interleaving (seeded scheduler)", "reference model: affinity recurrence + consumed-cell set (sim/models/dtw_ref.py)"]}
 ASSUMPTIONS = ["bounds: mostly series length 2..10 (one history in 12: length 11..24, minlen up to 8, |buffer| up to 6, up to ~60 ops); values on a small grid so that equal stretches (real local concurrences) exist",
                "reset() is taken to void generators created before it (they keep working on the dropped matrix)", "use_c instances (full and compact) are driven through the same histories; where the C matrix is known not to equal the recurrence (window set, penalty outside {0,1}: known findings) the magnitude-based oracles are switched off for C instances and the structural ones (path shape, end cell, minlen, no reuse since reset, restart as fresh) remain",
+               "'traced from a maximum' and 'the search ends only when no positive cell is left' are judged while every search since the last reset used buffer 0 and minlen <= 1 (one history in three is generated that way throughout): otherwise discarded short paths and buffer zones consume cells no caller sees",
                "a restart (restart=True at a generator's first next, kbest_matches_store(keep=False) returning) empties the model's consumed set: the model never demands reuse, it only forbids reuse since the last reset",
                "wp_slice(positivize=True) is not part of the generated histories (on the masked-array variant it rewrites the shared matrix through a view, turning -inf into +inf; the property does not speak of it)"]
 TOL = 1e-9
@@ -126,6 +127,13 @@ def gen_history(st):
                 programs[s].append({"op": "wp_slice"})
             else:
                 programs[s].append({"op": "best_match"})
+    if rng.below(3) == 0:
+        # one history in three searches with buffer 0 and minlen 1 only: then nothing but the yielded paths consumes cells, and
+        # "traced from a maximum" / "stops only when no positive cell is left" can be judged exactly
+        for prog in programs:
+            for o in prog:
+                if o["op"] in ("open", "store"):
+                    o["minlen"] = 1; o["buffer"] = 0
     ops = sessions.interleave(st("sessions"), programs)
     return {"setup": setup, "ops": ops}
 
@@ -172,6 +180,36 @@ def close(a, b):
     if math.isinf(a) or math.isinf(b):
         return a == b
     return abs(a - b) <= TOL * max(1.0, abs(a), abs(b))
+
+
+def max_available(M, U):
+    """Largest cell of the recurrence matrix that no match since the last reset has consumed: (value, (row, col)) in
+    matrix coordinates, (0.0, None) if no positive cell is left."""
+    best, cell = 0.0, None
+    for i in range(1, len(M)):
+        row = M[i]
+        for j in range(1, len(row)):
+            v = row[j]
+            if v > best and (i - 1, j - 1) not in U:
+                best, cell = v, (i, j)
+    return best, cell
+
+
+def check_from_max(m_rc, M, U, ctx):
+    """'Matches traced from a maximum': with buffer 0 and minlen <= 1 nothing but the yielded paths consumes cells, so the
+    cell a match is traced from must be a largest cell still available (ties: any of them)."""
+    best, cell = max_available(M, U)
+    v = M[m_rc[0]][m_rc[1]]
+    if cell is not None and not (v >= best - TOL * max(1.0, best)):
+        return {"class": "not-from-maximum", "detail": "%s: traced from cell %r (magnitude %r) although cell %r (magnitude %r) is still available" % (ctx, m_rc, v, cell, best)}
+    return None
+
+
+def check_exhausted(M, U, ctx):
+    best, cell = max_available(M, U)
+    if cell is not None and best > 1e-6:
+        return {"class": "search-stops-early", "detail": "%s: the search ended although cell %r (magnitude %r) is still available" % (ctx, cell, best)}
+    return None
 
 
 def check_path(path, end_rc, M, U, minlen, ctx, check_disjoint=True, shape=None):
@@ -311,6 +349,7 @@ def execute(history):
         bump("c_variant_history_without_magnitudes:known_matrix_finding")
         magnitudes = False
     U = set()
+    impure = [False]     # since U was last cleared: has any search with buffer != 0 or minlen > 1 run (such searches consume cells no caller sees)?
     streams = {}
     obs = []
     old = signal.signal(signal.SIGALRM, _alarm)
@@ -329,7 +368,7 @@ def execute(history):
                     bump("op:align")
                 elif kind == "reset":
                     lc.reset()
-                    U = set()
+                    U = set(); impure[0] = False
                     bump("op:reset")
                     for st in streams.values():
                         if not st["done"]:
@@ -354,7 +393,7 @@ def execute(history):
                         if spec["restart"]:
                             if U:
                                 bump("fault:restart_while_cells_consumed")
-                            U = set()
+                            U = set(); impure[0] = False
                         for st2 in streams.values():
                             if st2 is not st:
                                 st2["pure"] = False
@@ -363,12 +402,17 @@ def execute(history):
                         bump("fault:generators_interleaved_on_one_matrix")
                         for st2 in others:
                             st2["pure"] = False
+                    if spec["buffer"] != 0 or spec["minlen"] > 1:
+                        impure[0] = True
                     try:
                         m = next(st["gen"])
                     except StopIteration:
                         st["done"] = True
                         bump("stream_exhausted")
                         m = None
+                        if magnitudes and not impure[0] and (spec["k"] is None or st["n"] < spec["k"]):
+                            bump("oracle:exhausted")
+                            add(check_exhausted(M, U, "kbest_matches(k=%s, minlen=%s, buffer=0) stream" % (spec["k"], spec["minlen"])), opi)
                     if st.get("pure"):
                         # a restarted stream that nobody else has disturbed must yield what the same stream yields on a fresh object
                         st["yielded"].append(None if m is None else [list(map(int, t)) for t in m.path])
@@ -396,6 +440,9 @@ def execute(history):
                     v = check_path(path, (int(m.row), int(m.col)), M if magnitudes else None, U, spec["minlen"], "match %d of a kbest_matches(k=%s, minlen=%s, buffer=%s, restart=%s) stream" %
                                    (st["n"], spec["k"], spec["minlen"], spec["buffer"], spec["restart"]), shape=(len(M) - 1, len(M[0]) - 1))
                     add(v, opi)
+                    if magnitudes and not impure[0] and v is None:
+                        bump("oracle:from_maximum")
+                        add(check_from_max((int(m.row), int(m.col)), M, U, "match %d of a kbest_matches(k=%s, minlen=%s, buffer=0) stream" % (st["n"], spec["k"], spec["minlen"])), opi)
                     if spec["k"] is not None and st["n"] > spec["k"]:
                         add({"class": "stream-count", "detail": "more than k=%d matches" % spec["k"]}, opi)
                     U.update((int(a), int(b)) for a, b in path)
@@ -410,7 +457,9 @@ def execute(history):
                     if setup["variant"] == "c_compact" and op["buffer"] > 0:
                         continue
                     if op["restart"]:
-                        U = set()
+                        U = set(); impure[0] = False
+                    if op["buffer"] != 0 or op["minlen"] > 1:
+                        impure[0] = True
                     ms = lc.kbest_matches_store(k=op["k"], minlen=op["minlen"], buffer=op["buffer"], restart=op["restart"], keep=op["keep"])
                     bump("op:store:" + ("keep" if op["keep"] else "nokeep"))
                     n = 0
@@ -418,11 +467,18 @@ def execute(history):
                         n += 1
                         path = m.path
                         obs.append([opi, int(m.row), int(m.col), [list(map(int, t)) for t in path]])
-                        add(check_path(path, (int(m.row), int(m.col)), M if magnitudes else None, U, op["minlen"], "match %d of kbest_matches_store(k=%s, buffer=%s, restart=%s, keep=%s)" %
-                                       (n, op["k"], op["buffer"], op["restart"], op["keep"]), shape=(len(M) - 1, len(M[0]) - 1)), opi)
+                        v = check_path(path, (int(m.row), int(m.col)), M if magnitudes else None, U, op["minlen"], "match %d of kbest_matches_store(k=%s, buffer=%s, restart=%s, keep=%s)" %
+                                       (n, op["k"], op["buffer"], op["restart"], op["keep"]), shape=(len(M) - 1, len(M[0]) - 1))
+                        add(v, opi)
+                        if magnitudes and not impure[0] and v is None:
+                            bump("oracle:from_maximum")
+                            add(check_from_max((int(m.row), int(m.col)), M, U, "match %d of kbest_matches_store(k=%s, minlen=%s, buffer=0)" % (n, op["k"], op["minlen"])), opi)
                         U.update((int(a), int(b)) for a, b in path)
                     if op["k"] is not None and n > op["k"]:
                         add({"class": "stream-count", "detail": "store returned %d > k=%d matches" % (n, op["k"])}, opi)
+                    if magnitudes and not impure[0] and (op["k"] is None or n < op["k"]):
+                        bump("oracle:exhausted")
+                        add(check_exhausted(M, U, "kbest_matches_store(k=%s, minlen=%s, buffer=0)" % (op["k"], op["minlen"])), opi)
                     if op["restart"]:
                         # "restart: start searching from start, ignore previous calls": the result must be what a fresh object gives
                         fresh = _mk(setup)
@@ -433,7 +489,7 @@ def execute(history):
                         if got != exp:
                             add({"class": "restart-not-as-fresh", "detail": "kbest_matches_store(k=%s, buffer=%s, restart=True) after earlier searches returns %r, a fresh object returns %r" % (op["k"], op["buffer"], got[:3], exp[:3])}, opi)
                     if not op["keep"]:
-                        U = set()
+                        U = set(); impure[0] = False
                     for st2 in streams.values():
                         st2["pure"] = False
                 elif kind == "best_match":
